@@ -256,8 +256,87 @@ class Prover:
                     self.decompose_eq(c, 1 if expected else 0, "bool", out)
                 # overflow / div asserts: not used (build-configuration dependent)
         self._threaded_facts(node, out)
+        self._correlated_facts(node, out)
         self._facts_cache[node] = out
         return out
+
+    def _correlated_facts(self, node, out):
+        """a value that was branched on earlier and is branched on (or otherwise decided) again: when a switch S dominates
+        `node`, none of S's arms does (the arms have merged), and the facts at `node` decide which arm S took, then what
+        held when that arm was left holds at `node` - the facts of the arm's edge and those common to the edges leaving the
+        arm's region.  (`match x {..}` twice on the same x, a helper consulted once to test and once to act.)"""
+        cfg = self.an.cfg
+        busy = self.__dict__.setdefault("_corr_busy", set())
+        if node in busy:
+            return
+        variant = {}
+        truth = {}
+        eqc = {}
+        for f in out:
+            if f[0] == "variant":
+                variant[f[1]] = f[2]
+            elif f[0] in ("true", "false"):
+                truth[f[1]] = (f[0] == "true")
+            elif f[0] == "eqc":
+                eqc[f[1]] = f[2]
+        if not (variant or truth or eqc):
+            return
+        busy.add(node)
+        try:
+            have = {repr(f) for f in out}
+            for d in cfg.dominators(node):
+                if d >= cfg.nblocks or d == node:
+                    continue
+                info = self.an.term.get(d)
+                if info is None or info["kind"] != "switch":
+                    continue
+                outs = cfg.out_edges[d]
+                if any(cfg.dominates(e.node, node) for e in outs):
+                    continue            # still inside one arm: its edge facts are there already
+                D = info["discr"]
+                k = None
+                if D[0] == "discr" and D[1] in variant:
+                    k = variant[D[1]]
+                elif info.get("dty") == "bool":
+                    D0, neg = D, False
+                    while D0[0] == "not":
+                        D0, neg = D0[1], not neg
+                    if D0 in truth:
+                        k = int(truth[D0] != neg)
+                elif D in eqc:
+                    k = eqc[D]
+                if k is None:
+                    continue
+                arm = None
+                for e in outs:
+                    if e.label[0] == "switch" and e.label[1] == k:
+                        arm = e
+                if arm is None:
+                    for e in outs:
+                        if e.label[0] == "otherwise" and k not in e.label[1]:
+                            arm = e
+                if arm is None:
+                    continue
+                # edges leaving the region the arm dominates
+                exits = [e for e in cfg.edges if cfg.dominates(arm.node, e.node) and e.node != arm.node and
+                         not cfg.dominates(arm.node, e.dst)]
+                common = None
+                if not exits:
+                    exits = [arm]
+                # only exits from which `node` can still be reached matter
+                exits = [e for e in exits if e.src in cfg.reachable and node in cfg.reach_from([e.node])]
+                if len(exits) > 12:
+                    continue
+                for e in exits:
+                    fs = self.facts_at(e.node)
+                    keyed = {repr(f): f for f in fs}
+                    common = keyed if common is None else {k2: v for k2, v in common.items() if k2 in keyed}
+                for k2, f in (common or {}).items():
+                    if k2 not in have:
+                        out.append(f)
+                        have.add(k2)
+        finally:
+            busy.discard(node)
 
     def _threaded_facts(self, node, out):
         """facts that hold on every value-feasible way into a switch arm dominating `node`: when the switch tests a
